@@ -679,9 +679,16 @@ def build_payload(it, v):
             unique_identifier=u, cryptographic_parameters=crypto_params(it.get("params")),
             data=hx(it.get("data", "")))
     if op == "SignatureVerify":
+        kw = {}
+        if it.get("digested") is not None:
+            kw["digested_data"] = hx(it["digested"])
+        for k_, f_ in (("corr", "correlation_value"), ("init", "init_indicator"), ("final", "final_indicator")):
+            if it.get(k_) is not None:
+                kw[f_] = hx(it[k_]) if k_ == "corr" else it[k_]
         return OP[op], P.SignatureVerifyRequestPayload(
             unique_identifier=u, cryptographic_parameters=crypto_params(it.get("params")),
-            data=hx(it.get("data", "")), signature_data=hx(it.get("sig", "")))
+            data=None if it.get("data", "") is None else hx(it.get("data", "")),
+            signature_data=None if it.get("sig", "") is None else hx(it.get("sig", "")), **kw)
     if op == "MAC":
         return OP[op], P.MACRequestPayload(
             unique_identifier=_uid_attr(u), cryptographic_parameters=crypto_params(it.get("params")),
